@@ -44,7 +44,7 @@ ASSUMPTIONS = [
     "the heading shows the count scaled with the recipe (header note) is covered by the correspondence oracle only",
 ]
 RULE = ("documents whose first heading is ATX / setext (closing hashes, leading spaces, multi-line setext), level 1 or 2, "
-        "preceded or not by prose / recipe blocks / quoted headings, followed by further headings; one- and two-character titles (letter, digit, astral), titles with 'for', "
+        "preceded or not by prose / recipe blocks / quoted headings, followed by further headings; titles that contain the serving phrase earlier with the identical spelling (and the phrase doubled), one- and two-character titles (letter, digit, astral), titles with 'for', "
         "digits, punctuation, entities, non-ASCII, '%', inline markup, scaled-value braces; every documented phrase x "
         "case variants (incl. U+017F, U+212A, U+0130/0131) x spacings (space, tab, NBSP, U+3000, several) x N (1 digit "
         "to 4301 digits, leading zeros) x trailing space; near-miss endings; a case is non-trivial when the document "
@@ -259,7 +259,7 @@ ENTITY_LIKE_TITLES: List[Tuple[str, str]] = [
     ("&#x26;amp; co", "&amp; co"),
 ]
 TITLES += ENTITY_LIKE_TITLES
-# one- and two-character titles (letter, digit, non-ASCII, astral)
+# titles that contain the serving phrase earlier with the identical spelling (and the phrase doubled), one- and two-character titles (letter, digit, non-ASCII, astral)
 SHORT_TITLES: List[Tuple[str, str]] = [("A", "A"), ("7", "7"), ("\U0001f355", "\U0001f355"), ("\xe9", "\xe9"), ("ab", "ab"),
                                        ("x1", "x1"), ("\U0001f355\U0001f355", "\U0001f355\U0001f355"), ("42", "42"), ("z", "z")]
 TITLES += SHORT_TITLES
@@ -336,6 +336,12 @@ def gen_doc(rng: random.Random, phrases: List[List[str]]) -> Tuple[str, Dict[str
         sp1 = rng.choice(SPACINGS)
         text_ph = rng.choice(SPACINGS).join(words)
         sp2 = rng.choice(SPACINGS)
+        if rng.random() < 0.25 and "&" not in sp2 + text_ph:
+            # the same phrase text (same case, same following white space) already occurs inside the title
+            extra = " " + text_ph + sp2 + rng.choice(["thought", "you", "4 now", "x"])
+            src, plain = src + extra, plain + extra
+            spec["title"] = plain
+            tags.append("phrase-earlier-in-title")
         inline = src + sp1 + text_ph + sp2 + digits
         plain_full = plain + (sp1 + text_ph + sp2 + digits).replace("&nbsp;", "\xa0")
         spec.update(phrase=" ".join(ph), n=int(digits) if not huge else None, title=plain, huge=huge)
@@ -456,7 +462,7 @@ def suites(tier: str, seed: int) -> List[Suite]:
                     if doc not in seen:
                         seen.add(doc)
                         ti.cases.append(make_case(doc, spec, ["systematic", "phrase:" + " ".join(ph)]))
-    # every documented phrase after one- and two-character titles, ATX and setext
+    # every documented phrase after titles that contain the serving phrase earlier with the identical spelling (and the phrase doubled), one- and two-character titles, ATX and setext
     for ph in phrases:
         for src, plain in SHORT_TITLES:
             for style in ("atx", "setext"):
@@ -468,6 +474,24 @@ def suites(tier: str, seed: int) -> List[Suite]:
                     seen.add(doc)
                     ti.cases.append(make_case(doc, spec, ["systematic", "short-title", "phrase:" + " ".join(ph),
                                                           "style:" + style]))
+    # the title itself contains the serving phrase earlier, spelt identically (and the phrase doubled): the title is
+    # everything before the LAST occurrence (leftmost match of the end-anchored pattern, C18_documented_phrases)
+    for ph in phrases:
+        for words in ([w for w in ph], [w.capitalize() for w in ph], [w.upper() for w in ph]):
+            for sp in (" ", "  "):
+                phtxt = sp.join(words)
+                for title in ("Food " + phtxt + " thought", "Soup " + phtxt, phtxt + " you " + phtxt + " me",
+                              "A" + sp + phtxt + sp + "B"):
+                    if title.lower().endswith(" to"):
+                        continue
+                    inline = title + sp + phtxt + sp + "2"
+                    doc = "# " + inline + "\n\nProse.\n"
+                    spec = {"captured": True, "phrase": " ".join(ph), "n": 2, "title": title, "percent": False,
+                            "huge": False, "heading": inline, "heading_plain": inline}
+                    if doc not in seen and structure_ok(doc, spec):
+                        seen.add(doc)
+                        ti.cases.append(make_case(doc, spec, ["systematic", "phrase-earlier-in-title",
+                                                              "phrase:" + " ".join(ph)]))
     ti.cases.append(make_case("Just prose, no heading.\n", {"captured": False, "why_not": "there is no heading",
                                                              "percent": False, "phrase": None}, ["no-heading"]))
     for _ in range(n):
